@@ -7,6 +7,7 @@ import Csvq.Lemmas.Commit
 import Csvq.Gen.FsProto
 import Csvq.Ref.FsProto
 import Csvq.Lemmas.FileBytes
+import Csvq.Lemmas.TxCommit
 namespace Csvq.C10
 open Csvq.Commit
 
@@ -83,6 +84,73 @@ open Csvq.FileBytes in
 /-- … and without the rewind the new encoding sits behind a block of NUL bytes -/
 theorem nul_block_without_seek :
     (writes (truncate0 ⟨[1, 2, 3], 3⟩) [[9]]).bytes = [0, 0, 0, 9] := by decide
+
+/-! ### a COMMIT whose encoder refuses a table (Model/TxCommit.lean: Transaction.Commit over the regenerated loop
+    bodies, with failing steps) -/
+
+/-- the four loops of Transaction.Commit as regenerated on this run -/
+def genBodies : List (List String) := Csvq.FileBytes.loopBodies Csvq.Gen.fxTransactionCommit 1000
+
+/-- both encode loops pass the check for every combination of failing steps: no swap inside them, and the error of
+    `encode` is looked at directly behind it and returns -/
+theorem gen_encode_loops_return_on_error :
+    Csvq.TxCommit.encodeBodyOk (genBodies.getD 0 []) = true ∧ Csvq.TxCommit.encodeBodyOk (genBodies.getD 1 []) = true ∧
+    genBodies.length = 4 := by decide
+
+open Csvq.TxCommit in
+/-- **An encoder error aborts the commit before any swap** — over the regenerated Transaction.Commit, for any
+    number of created and updated tables and whatever else fails: if the encoder refuses ONE table (a value too long
+    for its fixed-length field, a character the table's encoding cannot spell, a tab inside an LTSV value …) then
+    Transaction.Commit returns without having swapped in ANY table.  Every existing table still holds its complete
+    old contents, and the half-written temporary files are left to the rollback (C11: close removes them). -/
+theorem encode_error_aborts_before_swap (created updated : List Nat) (fail : Nat → Fail)
+    (h : ∃ t ∈ created ++ updated, (fail t).encode = true) :
+    (commitRun genBodies created updated fail).2 = false ∧
+    (∀ ev ∈ (commitRun genBodies created updated fail).1, ev.2 ≠ "handler_commit") ∧
+    ∀ t, swapped (commitRun genBodies created updated fail).1 fail t = false :=
+  have h12 := gen_encode_loops_return_on_error
+  ⟨(commit_aborts_of_encode_failure genBodies h12.1 h12.2.1 created updated fail h).1,
+   (commit_aborts_of_encode_failure genBodies h12.1 h12.2.1 created updated fail h).2,
+   nothing_swapped_of_encode_failure genBodies h12.1 h12.2.1 created updated fail h⟩
+
+/-- … and the half-written temporary file of such a COMMIT is DISCARDED: the forced close of the handler (the
+    regenerated Handler.closeWithErrors, run by the rollback that follows the failed COMMIT) removes it together
+    with the lock, and the table keeps its old contents — whatever the encoder had already flushed into the
+    temporary file (`half`: any contents) -/
+theorem aborted_commit_discards_temp {α} (old half : α) :
+    let s := runOps ((Csvq.Gen.closeWithErrorsOps.filter (· ≠ "remove(h.path)")).map parseOp) (startUpdate old half)
+    s.data = some old ∧ s.temp = none ∧ s.lock = false ∧ s.stuck = false := by
+  intro s
+  have h : let t := runOps ((Csvq.Gen.closeWithErrorsOps.filter (· ≠ "remove(h.path)")).map parseOp) symStart
+      t.data = some false ∧ t.temp = none ∧ t.lock = false ∧ t.stuck = false := by decide
+  have e : s = (runOps ((Csvq.Gen.closeWithErrorsOps.filter (· ≠ "remove(h.path)")).map parseOp) symStart).map
+      (fun b => if b then half else old) := by
+    show runOps _ (startUpdate old half) = _
+    rw [map_run, sym_start]
+  obtain ⟨h1, h2, h3, h4⟩ := h
+  rw [e]
+  simp only [TState.map, h1, h2, h3, h4, Option.map]
+  simp
+
+open Csvq.TxCommit in
+/-- and when nothing fails every table is swapped in (the model is not the constant "nothing happens") -/
+theorem commit_without_failure_swaps_all :
+    let r := commitRun genBodies [0, 1] [2, 3, 4] (fun _ => {})
+    r.2 = true ∧ ([0, 1, 2, 3, 4].all fun t => swapped r.1 (fun _ => {}) t) = true := by decide
+
+open Csvq.TxCommit in
+/-- the check is not vacuous: a loop body that goes on after a failed encode (its error only looked at after the
+    ending line break was written, or not at all) is rejected -/
+theorem encode_body_check_rejects_ignored_error :
+    encodeBodyOk ["truncate", "if{", "return", "}", "seek", "if{", "return", "}", "encode", "write", "if{", "return", "}"] = false ∧
+    encodeBodyOk ["truncate", "seek", "encode", "if{", "return", "}", "handler_commit"] = false := by decide
+
+open Csvq.TxCommit in
+/-- the ending line break is written in the encoding OF THE FILE IT ENDS: two tables of one transaction with the same
+    line break and different encodings end differently -/
+theorem ending_line_break_follows_the_encoding :
+    endingLineBreak "csv" "UTF8" "LF" = [10] ∧ endingLineBreak "csv" "UTF16LE" "LF" = [10, 0] ∧
+    endingLineBreak "csv" "UTF16BEM" "CRLF" = [0, 13, 0, 10] ∧ endingLineBreak "jsonl" "UTF16LE" "LF" = [10] := by decide
 
 /-- the structured effect list of Transaction.Commit is the reviewed one -/
 theorem gen_txcommit_eq_ref : Csvq.Gen.fxTransactionCommit = Csvq.Ref.fxTransactionCommit := by decide
